@@ -121,6 +121,14 @@ def m_bytes_from(it, S, t, callee, args):
     return it.with_len(R, ln)
 
 
+@model("<hmac::Hmac<D> as crypto_mac::NewMac>::new_varkey")
+def m_hmac_new_varkey(it, S, t, callee, args):
+    # "HMAC accepts keys of every length": the implementation of NewMac::new_varkey for Hmac<D> never returns InvalidKeyLength
+    # (hmac crate documentation and source: shorter keys are padded, longer ones hashed)
+    inner = set_ty(("fresh", it.site("hmac")), "hmac::Hmac")
+    return ("agg", "core::result::Result", 0, (inner,))
+
+
 @model("bytes::bytes::Bytes::copy_from_slice")
 def m_bytes_copy_from_slice(it, S, t, callee, args):
     # a Bytes holding a copy of the slice (bytes docs): same content, same length
